@@ -186,6 +186,19 @@ pub fn handle_with(mut rq: Request, act: &Action, peer_expect: &str, partial: Op
         'outer: for (ri, (m_opt, n)) in act.reads.iter().enumerate() {
             let mut left = m_opt.unwrap_or(usize::MAX);
             let k = act.slices.get(ri).copied().unwrap_or(1);
+            if k == 0 {
+                // "n*0": the whole rest of the body with Read::read_to_end (which chooses its own buffer sizes)
+                let mut all = Vec::new();
+                match rd.read_to_end(&mut all) {
+                    Ok(_) => end = "eof",
+                    Err(_) => end = "err",
+                }
+                got.extend_from_slice(&all);
+                if end == "err" {
+                    break 'outer;
+                }
+                continue;
+            }
             let mut buf = vec![0u8; *n];
             let mut more: Vec<Vec<u8>> = (1..k).map(|_| vec![0u8; *n]).collect();
             end = "count";
